@@ -65,7 +65,7 @@ class LoadingCurve:
 
         new_points = []
         for i, p in enumerate(pre_scaled_points[:-1]):
-            next_point = self.points[i + 1]
+            next_point = pre_scaled_points[i + 1]
 
             soc_a = p[0]
             soc_b = next_point[0]
